@@ -299,6 +299,48 @@ def forms_program():
     )
     F.append(
         fn(
+            # annotations on attributes: 'o.n: T' declares nothing and stores nothing, and no such
+            # annotation is ever evaluated inside a function
+            "annattr",
+            ["p"],
+            [
+                ["bind", "o", ["obj"]],
+                ["ann", ["attr", "o", "n"], "int", None],
+                ["ann", ["attr", "o", "m"], "OnlyForTypeCheckers", ["add", var("p"), V]],
+                ["bind", "w", V],
+                ["ret", var("w")],
+            ],
+        )
+    )
+    F.append(
+        fn(
+            # default values are evaluated by the enclosing function: what they bind is its own
+            "lamdef",
+            ["p"],
+            [
+                ["bind", "r", ["lamd", "k", ["add", var("p"), V]]],
+                use("k"),
+                ["adef", "inner", ["walrus", "j", V]],
+                use("j"),
+                ["expr", ["tup", [var("inner")]]],
+                ["ret", var("k")],
+            ],
+        )
+    )
+    F.append(
+        fn(
+            # two context managers in one statement: the first target is bound before the second
+            # manager is entered (which may fail)
+            "withtwo",
+            ["p"],
+            [
+                ["with2", "a", "b", [["bind", "x", ["add", var("p"), V]], use("a", "b")]],
+                ["ret", var("p")],
+            ],
+        )
+    )
+    F.append(
+        fn(
             "augwalrus",
             ["p"],
             [
@@ -540,6 +582,19 @@ def forms_program():
             [
                 ["bind", "budget", V],
                 ["while", [["try", [["yield", var("budget"), None]], [["Exception", None, [["pt"]]]], [], []]]],
+                ["bind", "done", V],
+                ["ret", var("budget")],
+            ],
+        )
+    )
+    F.append(
+        fn(
+            # StopIteration thrown into it while suspended: caught by name, at the yield
+            "genstop",
+            ["p"],
+            [
+                ["bind", "budget", V],
+                ["while", [["try", [["yield", var("budget"), None]], [["StopIteration", None, [["pt"]]]], [], []]]],
                 ["bind", "done", V],
                 ["ret", var("budget")],
             ],
